@@ -22,7 +22,7 @@ engine_of() {
 build() { # $1 = engine
   case $1 in
     seq) go build -o bin/seq ./props/seq ;;
-    pure) go build -o bin/pure ./props/pure ;;
+    pure) tools/build_overlay.sh pure || { echo "NOTE: overlay build failed; falling back to the plain build (no map-order/rand seams)" >&2; go build -o bin/pure ./props/pure; } ;;
     *) tools/build_overlay.sh "$1" ;;
   esac
 }
